@@ -17,6 +17,11 @@
 
 static MPT_STRUCT(dispatch) disp_storage;
 
+/* fallback handler of the second dispatcher (op fbreentry); `victim` counts the invocations after the end-of-life call */
+static MPT_STRUCT(dispatch) re_disp;
+struct re_reg;
+int re_fb_handler(void *arg, MPT_STRUCT(event) *ev);
+
 /* the dispatcher's own fallback reply context (disp->_ctx, op ctx): a reference counted metatype that converts to the
  * harness reply context; released by mpt_dispatch_fini */
 struct drv_ctx { MPT_INTERFACE(metatype) mt; int refs; };
@@ -46,9 +51,25 @@ static MPT_INTERFACE(metatype) *drv_ctx_clone(const MPT_INTERFACE(metatype) *mt)
 static const MPT_INTERFACE_VPTR(metatype) drv_ctx_vptr = { { drv_ctx_convert }, drv_ctx_unref, drv_ctx_addref, drv_ctx_clone };
 
 /* a second dispatcher whose handlers unregister another id from inside their end-of-life call (op reentry) */
-static MPT_STRUCT(dispatch) re_disp;
 static struct re_reg { int eol; uintptr_t victim; } re_regs[12];
 static int re_depth;
+int re_fb_handler(void *arg, MPT_STRUCT(event) *ev)
+{
+	struct re_reg *r = arg;
+	if (ev) {
+		if (r->eol) ++r->victim;
+		return 0;
+	}
+	++r->eol;
+	if (re_depth < 4) {
+		MPT_STRUCT(event) e2 = MPT_EVENT_INIT;
+		e2.id = 99;
+		++re_depth;
+		mpt_dispatch_emit(&re_disp, &e2);
+		--re_depth;
+	}
+	return 0;
+}
 static int re_handler(void *arg, MPT_STRUCT(event) *ev)
 {
 	struct re_reg *r = arg;
@@ -242,6 +263,20 @@ int main(void)
 			snprintf(v, sizeof(v), "ok n=%zu fresh=%d", got, fresh);
 			snprintf(buf, sizeof(buf), "%" PRIuPTR, got ? ids[got-1] : (uintptr_t) 0);
 			result(v, buf, 0);
+		}
+		else if (!strcmp(op, "fbreentry") && drv_nw == 2) {
+			/* a fallback handler (on a dispatcher of its own) whose end-of-life call emits an event with an unknown id:
+			 * it must not be invoked once it was told to finish, and is told so exactly once */
+			extern int re_fb_handler(void *, MPT_STRUCT(event) *);
+			char v[64];
+			memset(re_regs, 0, sizeof(re_regs));
+			mpt_dispatch_init(&re_disp);
+			((struct drv_rawdisp *) (void *) &re_disp)->_err.cmd = re_fb_handler;
+			((struct drv_rawdisp *) (void *) &re_disp)->_err.arg = &re_regs[0];
+			re_depth = 0;
+			mpt_dispatch_fini(&re_disp);
+			snprintf(v, sizeof(v), "eol=%d after=%d", re_regs[0].eol, (int) re_regs[0].victim);
+			result(v, "0", 0);
 		}
 		else if (!strcmp(op, "reentry") && drv_nw == 4) {
 			/* n handlers (ids 1..n) on a dispatcher of their own; the end-of-life call of handler k unregisters id v_k
